@@ -151,6 +151,9 @@ def binop(I, op, a, b, node=None):
                     to_float(I, v, node)
             return SComplex("cplx")
         raise Unsupported("complex arithmetic")
+    if isinstance(a, SStr) and isinstance(op, ast.Mod):
+        # printf-style formatting: the text is not modelled (log / diagnostic strings)
+        return SStr(c.fresh("percent_formatted", StrS))
     if isinstance(a, SStr) and isinstance(b, SStr) and isinstance(op, ast.Add):
         return SStr(z3.Concat(a.t, b.t))
     if isinstance(op, ast.Mult) and (isinstance(a, SStr) and isinstance(b, (SInt, SBool)) or isinstance(b, SStr) and isinstance(a, (SInt, SBool))):
@@ -658,6 +661,16 @@ def symbolic_comprehension(I, e, frame, sub, kind, it):
     g = e.generators[0]
     if I.codec is not None:
         return codec_comprehension(I, e, frame, sub, kind, it)
+    if kind == "set" and getattr(I, "accumulate_rules", False):
+        from . import accum
+
+        return accum.set_comprehension(I, e, frame, sub)
+    if kind in ("list", "gen") and getattr(I, "accumulate_rules", False) and isinstance(it, ZVal) and isinstance(it.ty, (TSet, TMap)):
+        # a list built from a SET: the filtered / mapped set in an arbitrary enumeration order
+        from . import accum
+        from .builtins_model import set_to_seq
+
+        return set_to_seq(I, accum.set_comprehension(I, e, frame, sub), "list")
     if I.unroll is not None and kind in ("list", "gen") and isinstance(it, ZVal) and isinstance(it.ty, TSeq) and isinstance(g.target, ast.Name) \
             and isinstance(e.elt, ast.Name) and e.elt.id == g.target.id and g.ifs:
         # filter over a pure sequence, unrolled WITHOUT forking on the conditions: the result is
